@@ -233,7 +233,16 @@ impl Duo {
     }
 
     /// One update + full oracle. Returns violations.
+    /// One update + full oracle; a panic anywhere (update or accessor) is itself a violation.
     pub fn offer(&mut self, p: u32, edges: &mut BTreeMap<String, u64>) -> Vec<(String, String)> {
+        let c = self.r.count;
+        match catch(|| self.offer_inner(p, edges)) {
+            Ok(v) => v,
+            Err(pi) => vec![(format!("panic|{}", pi.site_key()), format!("panicked at C={c} while offering pair {p:#x} / reading the state: {} at {}:{}", pi.message, pi.file, pi.line))],
+        }
+    }
+
+    fn offer_inner(&mut self, p: u32, edges: &mut BTreeMap<String, u64>) -> Vec<(String, String)> {
         assert!(self.r.allows(p), "model precondition");
         let before = self.s.verif_state();
         let novel = !self.r.has(p);
